@@ -41,6 +41,7 @@ import Cog.Sem.WidenWitness
 import Cog.Sem.WidenStruct
 import Cog.Gen.Chains
 import Cog.Front.JsonSchemaSoundMain
+import Cog.Front.OpenApiSoundMain
 namespace Cog.Sem
 open Cog.IR GoVal
 
@@ -504,6 +505,131 @@ open Cog.Front.JsonSchema FrontEx in
 example : FragJS cxDefs (refTo "R") = true ∧ jsValid always cxDefs 2 (refTo "R") cxDoc = true ∧
     jsValidX always cxDefs 2 (refTo "R") cxDoc = false := by
   refine ⟨by decide +kernel, by decide +kernel, by decide +kernel⟩
+
+
+/-! ### the same for OpenAPI inputs (model: Cog/Front/OpenApi*.lean; tie: stream `c01-front-oa`)
+
+  `OpenApi.frontEnd pkg fuel cs` is the literal model of internal/openapi/generator.go from the kin-openapi value
+  (`components.schemas` as `OSR`) to the full IR; `oaValid` / `oaValidX` the semantics of kin-openapi's `VisitJSON`
+  (plain / strict: S1–S3 as above); `FragOA` / `rootFrag` the decidable fragment (Cog/Front/OpenApiFrag.lean). -/
+
+namespace OA
+open Cog.Front.OpenApi
+
+/-- the FULL statement of (b) for OpenAPI inputs; false on the current tree (counterexample below) -/
+def C01_openapi_parser_sound_full : Prop :=
+  ∀ (fmt : String → String → Bool) (pkg : String) (cs : Components) (root : String) (fuel : Nat) (S : Schemas) (n : Nat) (j : Json),
+    frontEnd pkg fuel cs = .ok S → wfDeep j = true → oaValid fmt cs n (refTo root) j = true →
+    ∃ n', srcDen n' S (.ref pkg root {}) j = true
+
+/-- PARSER SOUNDNESS for OpenAPI on the fragment -/
+theorem C01_openapi_parser_sound_partial (fmt : String → String → Bool) (pkg : String) (cs : Components) (root : String)
+    (fuel : Nat) (S : Schemas) (hF : FragOA cs = true) (hR : rootFrag cs root = true) (hS : frontEnd pkg fuel cs = .ok S)
+    (n : Nat) (j : Json) (hwf : wfDeep j = true) (hv : oaValidX fmt cs n (refTo root) j = true) :
+    ∃ n', srcDen n' S (.ref pkg root {}) j = true :=
+  ⟨n + 2, parser_sound fmt pkg cs root fuel S hF hR hS n j hwf hv⟩
+
+theorem C01_openapi_parser_sound_fuel_partial (fmt : String → String → Bool) (pkg : String) (cs : Components) (root : String)
+    (fuel : Nat) (S : Schemas) (hF : FragOA cs = true) (hR : rootFrag cs root = true) (hS : frontEnd pkg fuel cs = .ok S)
+    (n : Nat) (j : Json) (hwf : wfDeep j = true) (hv : oaValidX fmt cs n (refTo root) j = true) :
+    srcDen (n + 2) S (.ref pkg root {}) j = true :=
+  parser_sound fmt pkg cs root fuel S hF hR hS n j hwf hv
+
+/-- (b) + (c) + (d) for OpenAPI inputs on the fragment -/
+theorem C01_openapi_end_to_end_partial (fmt : String → String → Bool) (pkg : String) (cs : Components) (root : String)
+    (fuel : Nat) (S S' : Schemas) (hF : FragOA cs = true) (hR : rootFrag cs root = true) (hS : frontEnd pkg fuel cs = .ok S)
+    (hP : PlainS S = true) (hrun : runChain goChain S = .ok S')
+    (n : Nat) (j : Json) (hwf : wfDeep j = true) (hv : oaValidX fmt cs n (refTo root) j = true) :
+    ∃ j', goRoundTrip (n + 2 + 1) S' pkg root j = .ok j' ∧ Json.eqv j' j = true :=
+  C01_source_roundtrip_struct_partial S S' hP hrun (n + 2) pkg root j
+    (parser_sound fmt pkg cs root fuel S hF hR hS n j hwf hv)
+
+def strR : OSR := .mk "" true "" (.mk { types := some ["string"] } [] [] [] [] .none .none)
+
+/-- `R = {name: string (required), count?: integer(int32) nullable, mode?: $ref M, next?: $ref R, tags?: [string]}`,
+    `M = enum asc|desc` -/
+def exComps : Components := [
+  ("M", .mk "" true "" (.mk { types := some ["string"], enum := some [.str "asc", .str "desc"] } [] [] [] [] .none .none)),
+  ("R", .mk "" true "" (.mk { types := some ["object"], required := ["name"], addlHas := some false } [] [] []
+      [("count", .mk "" true "" (.mk { types := some ["integer"], format := "int32", nullable := true } [] [] [] [] .none .none)),
+       ("mode", Cog.Front.OpenApi.refTo "M"), ("name", strR), ("next", Cog.Front.OpenApi.refTo "R"),
+       ("tags", .mk "" true "" (.mk { types := some ["array"] } [] [] [] [] .none (.some strR)))]
+      .none .none))]
+
+def exDocOA : Json :=
+  .obj [("name", .str "x"), ("count", .null), ("tags", .arr [.str "t"]),
+        ("next", .obj [("name", .str "y"), ("mode", .str "desc"), ("count", .num 12)])]
+
+def alwaysOA : String → String → Bool := fun _ _ => true
+
+/-- non-vacuity: hypotheses and conclusions of the OpenAPI theorems on an example, evaluated by the kernel -/
+example : FragOA exComps = true ∧ rootFrag exComps "R" = true ∧ wfDeep exDocOA = true ∧
+    oaValidX alwaysOA exComps 8 (Cog.Front.OpenApi.refTo "R") exDocOA = true ∧
+    oaValid alwaysOA exComps 8 (Cog.Front.OpenApi.refTo "R") (.obj [("name", .str "x"), ("zz", .num 4)]) = false ∧
+    (match frontEnd "p" 8 exComps with
+     | .ok S =>
+       PlainS S && srcDen 10 S (.ref "p" "R" {}) exDocOA &&
+       (match runChain goChain S with
+        | .ok S' => den 11 S' (.ref "p" "R" {}) exDocOA && roundTripsOK S' "p" "R" exDocOA
+        | _ => false)
+     | _ => false) = true := by
+  refine ⟨by decide +kernel, by decide +kernel, by decide +kernel, by decide +kernel, by decide +kernel, by decide +kernel⟩
+
+/-! the full statement is false: the front-end drops `nullable` on booleans (and enums, arrays, objects) -/
+
+def cxComps : Components :=
+  [("R", .mk "" true "" (.mk { types := some ["boolean"], nullable := true } [] [] [] [] .none .none))]
+
+def boolAlias (S : Schemas) : Bool :=
+  match Schemas.locateObject S "p" "R" with
+  | some o => (match o.ty with | .scalar "bool" _ _ _ => true | _ => false)
+  | none => false
+
+theorem boolAlias_srcDen (S : Schemas) (h : boolAlias S = true) (n' : Nat) :
+    srcDen n' S (.ref "p" "R" {}) .null = false := by
+  cases n' with
+  | zero => rfl
+  | succ k =>
+    unfold boolAlias at h
+    simp only [srcDen, xden]
+    cases ho : Schemas.locateObject S "p" "R" with
+    | none => rfl
+    | some o =>
+      simp only [ho] at h ⊢
+      cases hty : o.ty with
+      | scalar kind v cs om =>
+        simp only [hty] at h ⊢
+        have hk : kind = "bool" := by
+          split at h
+          · rename_i heq; injection heq with e1
+          · cases h
+        subst hk
+        have hd : denScalar "bool" .null = false := by decide +kernel
+        have hn : (Json.null).isNull = true := rfl
+        rw [hd, hn]
+        simp
+      | ref _ _ _ | cref _ _ _ _ | array _ _ | map _ _ _ | struct _ _ _ _ | enum _ _ | disj _ _ _ | inter _ _ | slot _ _ | bad _ _ =>
+        simp [hty] at h
+
+/-- `R: {type: boolean, nullable: true}` and the document `null`: accepted by kin-openapi, in `srcDen` of the front-end's
+    IR at no fuel — the generator reads `nullable` only on strings and numbers (replayed: pinned case `oapinnullbool` of
+    stream c01-front-oa).  The schema is outside `FragOA`. -/
+theorem C01_openapi_parser_sound_counterexample : ¬ C01_openapi_parser_sound_full := by
+  intro hfull
+  have hshape : (match frontEnd "p" 4 cxComps with
+      | .ok S => boolAlias S | _ => false) = true := by decide +kernel
+  cases hr : frontEnd "p" 4 cxComps with
+  | ok S =>
+    rw [hr] at hshape
+    obtain ⟨n', h⟩ := hfull alwaysOA "p" cxComps "R" 4 S 2 .null hr (by decide +kernel) (by decide +kernel)
+    rw [boolAlias_srcDen S hshape n'] at h
+    cases h
+  | err e => rw [hr] at hshape; cases hshape
+  | panic e => rw [hr] at hshape; cases hshape
+
+example : FragOA cxComps = false := by decide +kernel
+
+end OA
 
 -- ---- END block of the c01-front builder ----
 
